@@ -68,6 +68,16 @@ SUMMARY = {
     "C08-4": ("reader returns false instead of throwing when a KNOTS data unit is short (callers ignore the bool)", "file truncated inside a knot vector: loads as a different table", "missed at first under C08 (caught under C07: VG-2); C08 now runs VG-2"),
     "C09-4": ("`kronecker_product(tmp2, result)` instead of `(result, tmp2)` in `calc_penalty`", ">= 2 dimensions that differ (knots, orders, smoothing) with non-zero smoothing", "caught (GW-3)"),
     "C10-4": ("`get_column`'s exhaustive search replaced by a single merge pass", "second consecutive single-coefficient release whose index is not the largest free one", "missed at first; SO-1 (no search position carried across requested rows) added"),
+    "C11-4": ("same edit as C10-1 (independent agent, round 4)", "degenerate systems whose optimum has exact zeros with zero multiplier", "caught (SG-2)"),
+    "C12-4": ("worker returns at once when `sched_setaffinity` fails (instead of only printing)", "more workers than CPUs the process may run on: the coordinator waits for a worker that has left", "missed at first; MT-10 (the worker leaves only in answer to TERMINATE) added"),
+    "C13-4": ("knots-vs-order guard rewritten as `nsplines = size-order-1; if(nsplines < order+1)` (unsigned wrap)", "knot vectors shorter than order+1 in two dimensions at once", "caught (VG-1: guard not in the required relational form)"),
+    "C14-4": ("transfer-matrix multiply rewritten with hoisted pointers; input slab offset loses `*stride2`", "convolved dimension strictly inside a table of >= 3 dimensions", "@@C14-4@@"),
+    "C15-4": ("C wrapper `splinetable_permute` returns 0 early when the index array `is_sorted`", "sorted malformed argument ({0,0,2}, {0,1,3}) through the C interface", "@@C15-4@@"),
+    "C16-4": ("`remove_key` moves the last entry into the hole (`std::swap` + `std::copy`)", ">= 3 keys, removal of one before the second-to-last, order observed", "missed at first; KM-4 (order-preserving key store) added"),
+    "C17-4": ("`slicemultiply` returns 0 early when the product is structurally empty, before the shape update", "sparse coefficient array and a grid wholly off the populated slices", "missed at first; GE-4 (shape update on every successful return) added"),
+    "C18-4": ("`clear()` returns early when `ndim == 0`", "keys written to a handle that holds no spline, then free: aux storage leaked", "missed at first; TS-6 (release independent of ndim) added"),
+    "C19-4": ("`std::reverse(naxes)` dropped from `estimateMemory`", "declared convolution on a table whose coefficient grid is not symmetric under dimension reversal", "missed at first; SM-7 (axis reversal in every reader of the image size) added"),
+    "C20-4": ("`this->coefficients=nullptr` after the release removed from `convolve`", "allocation failure at the first allocator request inside convolve: double free through the guard", "missed at first; TS-7 (released member re-pointed before the next raising element) added"),
     "C20-2": ("`extents[0] = nullptr` removed from the reader", "allocation failure at the 7th request with a non-zero-filling allocator", "caught"),
 }
 try:
